@@ -148,16 +148,24 @@ impl<'input> Scalar<'input> {
     /// Returns the parsed [`Scalar`].
     #[must_use]
     pub fn parse_from_cow(v: Cow<'input, str>) -> Self {
+        // `from_str_radix` accepts a leading sign, which YAML does not allow after a prefix.
+        fn parse_unsigned(number: &str, radix: u32) -> Option<i64> {
+            if number.starts_with(['+', '-']) {
+                None
+            } else {
+                i64::from_str_radix(number, radix).ok()
+            }
+        }
         if let Some(number) = v.strip_prefix("0x") {
-            if let Ok(i) = i64::from_str_radix(number, 16) {
+            if let Some(i) = parse_unsigned(number, 16) {
                 return Self::Integer(i);
             }
         } else if let Some(number) = v.strip_prefix("0o") {
-            if let Ok(i) = i64::from_str_radix(number, 8) {
+            if let Some(i) = parse_unsigned(number, 8) {
                 return Self::Integer(i);
             }
         } else if let Some(number) = v.strip_prefix('+') {
-            if let Ok(i) = number.parse::<i64>() {
+            if let Some(i) = parse_unsigned(number, 10) {
                 return Self::Integer(i);
             }
         }
